@@ -10,6 +10,7 @@ import JSV.Proofs.RefineCheck
 import JSV.Proofs.Defined
 import JSV.Proofs.DefinedGuarded
 import JSV.Proofs.FloatMult
+import JSV.Generated.Facts
 namespace JSV.C01
 open JSV Go GoVal Refine
 
@@ -503,5 +504,36 @@ end
     accepts `{"multipleOf": 3}` for `36028797018963968`, the model (exact division) rejects it.  This is why operations that
     combine `multipleOf` with operands of magnitude ≥ 2^50 are outside the property. -/
 example : Go.multipleOk (2 ^ 55) 3 = false ∧ FloatMult.modfFrac (FloatMult.rne53 (2 ^ 55 / 3)) = 0 := by decide +kernel
+
+/-! ## tie to the source: the order of the keyword blocks (regenerated from validate.go on every run) -/
+
+/-- The Schema fields in the order in which the model's `Go.step` chain reads them: `bRef`; `bType`; `bEnum`; `bConst`;
+    `bNumeric`; `bString`; `bDynamicRef`; the in-place applicators `bAllOf` `bAnyOf` `bOneOf` `bNot` `bIf`; the array group
+    (`bItems`, `bContains`, `bArrayLimits`, `bUnique`, then `unevaluatedItems`); the object group (`bProps`, `propertyNames`,
+    `bObjectLimits`, `required`, `bDependencies`, then `unevaluatedProperties`).  In-place applicators come before both
+    `unevaluated*` keywords, and each `unevaluated*` keyword closes its group. -/
+def blockReadOrder : List String := [
+  "Ref", "Type", "Types", "Enum", "Const", "MultipleOf", "Minimum", "Maximum", "ExclusiveMinimum", "ExclusiveMaximum",
+  "MinLength", "MaxLength", "Pattern", "DynamicRef", "AllOf", "AnyOf", "OneOf", "Not", "If", "Then", "Else",
+  "ItemsArray", "AdditionalItems", "Items", "PrefixItems", "Contains", "MinContains", "MaxContains", "MinItems", "MaxItems",
+  "UniqueItems", "UnevaluatedItems", "Properties", "PatternProperties", "AdditionalProperties", "PropertyNames",
+  "MinProperties", "MaxProperties", "Required", "DependencyStrings", "DependencySchemas", "DependentRequired",
+  "DependentSchemas", "UnevaluatedProperties"]
+
+/-- the keyword blocks of `(*state).validate` occur in the source in the order of the model's blocks (first occurrence of each
+    `schema.X` selector, regenerated by factgen): a block moved in front of / behind another one breaks this obligation -/
+theorem block_order_eq_generated : Generated.validateReadOrder = blockReadOrder := by
+  decide
+
+/-- in particular every in-place applicator and every adjacent keyword is read before `unevaluatedItems` /
+    `unevaluatedProperties` (the order the specification requires) -/
+theorem unevaluated_after_in_place :
+    (["Ref", "DynamicRef", "AllOf", "AnyOf", "OneOf", "Not", "If", "Then", "Else", "DependentSchemas", "DependencySchemas",
+      "Properties", "PatternProperties", "AdditionalProperties"].all fun k =>
+        Generated.validateReadOrder.idxOf k < Generated.validateReadOrder.idxOf "UnevaluatedProperties") = true ∧
+    (["Ref", "DynamicRef", "AllOf", "AnyOf", "OneOf", "Not", "If", "Then", "Else", "PrefixItems", "Items", "ItemsArray",
+      "AdditionalItems", "Contains"].all fun k =>
+        Generated.validateReadOrder.idxOf k < Generated.validateReadOrder.idxOf "UnevaluatedItems") = true := by
+  decide
 
 end JSV.C01
